@@ -327,7 +327,10 @@ def run_scenario(ops, name):
     sp = os.path.join(WORK, "traces", name + ".script.ndjson")
     tp = os.path.join(WORK, "traces", name + ".trace.ndjson")
     write_ndjson(sp, ops)
-    summ = vh_json(["scenario", sp, tp], timeout=1800)
+    # every second scenario (by name) runs with the Trace-level logger that formats each record: a log statement of the code under test
+    # must neither panic nor change the machine (its arguments are evaluated only when the level is enabled, as under `-vvvv`)
+    env = {"VH_TRACE_LOG": "1"} if (os.environ.get("VH_TRACE_LOG") == "1" or sum(name.encode()) % 2 == 1) else None
+    summ = vh_json(["scenario", sp, tp], timeout=1800, env=env)
     return tp, summ
 
 
